@@ -57,6 +57,11 @@ for code,name in sorted(served.items()):
         extra = ", body size word concrete (= payload length)" if (code==24 and v&0x200) else ""
         out.append(line(f"e_be_{name}{sfx}_nr", code, 0x9, 0, v, t, f"request {code} ({name.upper()}), header flags 0x9 (version 1, NEED_REPLY), declared size = body size" + extra, pr, tf))
         out.append(line(f"e_be_{name}{sfx}_plain", code, 0x1, 0, v, 'thorough' if code not in (2,16,12) else t, f"request {code} ({name.upper()}), header flags 0x1 (version 1), declared size = body size" + extra, pr))
+# SET_LOG_BASE (a request with a reply AND a handler that can fail): concrete handler outcome per instance, so that a
+# tree which routes the outcome into a second send (reply + ack) stays decidable (seeded/C04-a6: the symbolic-outcome
+# harness ran out of memory on such a tree)
+for v,sfx,what in ((1,'_ok','handler succeeds'),(2,'_fail','handler fails')):
+    out.append(line(f"e_be_set_log_base{sfx}_nr", 6, 0x9, 0, v, 'quick', f"request 6 (SET_LOG_BASE), header flags 0x9 (version 1, NEED_REPLY), declared size = body size, {what} (concrete outcome)", props_for(6)))
 # malformed header classes on representatives
 for code in (2,8,9,12,18,25,37,1,11):
     name=served[code]; v=4 if code==25 else 0
